@@ -194,7 +194,7 @@ func genC01(tier string, seed int64) []Case {
 				st.Mode = "crash"
 			case x < 19:
 				st.Mode = "timeout"
-				to = 500
+				to = 1200 // every step of the history shares this timeout: generous enough for a healthy step on a loaded machine
 			default:
 				st.Mode = "response"
 				st.RespSize = maxPayload + 1 + r.Intn(100)
